@@ -61,6 +61,9 @@ def shard(i, n, args):
         e = fails.setdefault(key, {"count": 0, "witness": wit})
         e["count"] += 1
 
+    from .pyside import warm_all
+
+    warm_all(py, mm, seed, reverse=bool(i % 2))
     for root in ctx.select_roots(py, i, n):
         res["roots"] += 1
         if root.cls is None:
